@@ -71,8 +71,8 @@ def run(ctx):
     P = ctx.prog
     ctx.explanation, ctx.not_decided = EXPLANATION, NOT_DECIDED
     # r1
-    ctx.only_callers('C07.r1', 'Storage::update_check_points', {'Storage::init_genesis_block', FIN}, 2)
-    ctx.only_callers('C07.r1', 'Storage::update_max_check_point_index', {'Storage::init_genesis_block', FIN}, 2)
+    ctx.only_callers('C07.r1', 'Storage::update_check_points', {'Storage::init_genesis_block', FIN}, 1)
+    ctx.only_callers('C07.r1', 'Storage::update_max_check_point_index', {'Storage::init_genesis_block', FIN}, 1)
     ctx.only_callers('C07.r1', FIN, {'LightClientProtocol::refresh_all_peers'}, 1)
     from rules.C02 import key_family_writers
     from rules.C01 import meta_key_writers
